@@ -45,6 +45,9 @@ type reply struct {
 	Refused, Allowed   int // kernel decisions
 	PolicySkipped      int
 	PolicySkippedOther int
+	ArtefactSkipped    int
+	KernelOffFormula   int
+	MaskedChmodSetgid  int
 	Outcomes           map[string]int
 	Viols              []*violAgg
 	Samples            []*replay
@@ -473,7 +476,11 @@ type evalOut struct {
 	viols   []viol
 	skipped bool
 	skipOth bool
-	args    opArgs
+	skipArt bool
+
+	kernelOffFormula bool
+	maskedChmod      bool
+	args             opArgs
 }
 
 func isPermKind(k string) bool {
@@ -542,6 +549,16 @@ func (w *worker) eval(b *block, nodes []node, c callT) (out evalOut, err error) 
 		}
 	}
 
+	// os.RemoveAll of a non-empty directory first tries a plain remove, then
+	// opens the PARENT directory for reading to work with unlinkat: a refusal
+	// whose only cause is missing read permission on the parent is an artefact
+	// of that strategy, not a DAC decision about removal.
+	if c.Op == "RemoveAll" && b.Fam.LeafKind == "N" && rk.Kind != "ok" && lacks(b.Fam, nodes, u, c) == "p:r" {
+		out.skipped, out.skipArt = true, true
+
+		return out, nil
+	}
+
 	base := map[string]string{
 		"call": c.Op, "variant": c.Variant, "actor": actorClass(b.Fam, nodes, u), "shape": b.Fam.ID,
 		"node": lacks(b.Fam, nodes, u, c), "special": specialsOf(nodes), "kernel": rk.Kind, "avfs": rv.Kind,
@@ -574,23 +591,96 @@ func (w *worker) eval(b *block, nodes []node, c callT) (out evalOut, err error) 
 		out.viols = append(out.viols, viol{mk("admin-refused", ""), diffText})
 	}
 
+	// Created objects: the oracle is the formula of the property (owner = the
+	// calling user, group = the calling group, mode = perm &^ umask with the
+	// special bits as given), not the kernel: a setgid directory makes the
+	// kernel hand down its group (and the bit to subdirectories), mkdir(2)
+	// ignores S_ISGID, and the kernel strips S_ISGID from files in several
+	// situations. Those kernel deviations from the formula are only counted.
+	if c.Creates {
+		if rv.Kind == "ok" {
+			for _, d := range formulaDiff(vd, w.pv, u, c) {
+				kind := "created-mode"
+				if strings.Contains(d, "id-not-caller") {
+					kind = "created-owner"
+				}
+
+				out.viols = append(out.viols, viol{mk(kind, d), diffText})
+			}
+		}
+
+		if rk.Kind == "ok" && len(formulaDiff(kd, w.pk, u, c)) > 0 {
+			out.kernelOffFormula = true
+		}
+	}
+
 	// trees; when exactly one side allowed the call the difference is implied
 	if (rk.Kind == "ok") == (rv.Kind == "ok") && diffText != "" {
 		for _, d := range treeDiff(kd, vd, w.pk, nodes) {
-			kind := "tree"
-
-			switch {
-			case strings.HasPrefix(d, "new:uid") || strings.HasPrefix(d, "new:gid"):
-				kind = "created-owner"
-			case strings.HasPrefix(d, "new:perm"):
-				kind = "created-mode"
+			// owner, group and mode of a created object are judged by the formula above
+			if c.Creates && (strings.HasPrefix(d, "new:uid") || strings.HasPrefix(d, "new:gid") || strings.HasPrefix(d, "new:perm")) {
+				continue
 			}
 
-			out.viols = append(out.viols, viol{mk(kind, d), diffText})
+			// chmod by an owner outside the file's group: the kernel clears
+			// S_ISGID; the property does not name that rule
+			if (c.Op == "Chmod" || c.Op == "File.Chmod") && strings.HasSuffix(d, ":perm:setgid-only-avfs") {
+				out.maskedChmod = true
+
+				continue
+			}
+
+			out.viols = append(out.viols, viol{mk("tree", d), diffText})
 		}
 	}
 
 	return out, nil
+}
+
+// formulaDiff checks every object present in after but not in before against
+// the creation formula of the property.
+func formulaDiff(after, before []string, u user, c callT) []string {
+	am, bm := parseDump(after), parseDump(before)
+	set := map[string]bool{}
+
+	for p, a := range am {
+		if _, ok := bm[p]; ok || strings.HasPrefix(a.typ, "!") {
+			continue
+		}
+
+		og := strings.SplitN(a.owner, ":", 2)
+		if len(og) == 2 {
+			if og[0] != fmt.Sprint(u.Uid) {
+				set["new:uid-not-caller"] = true
+			}
+
+			if og[1] != fmt.Sprint(u.Gid) {
+				set["new:gid-not-caller"] = true
+			}
+		}
+
+		want := uint32(c.Perm&^c.Umask) & 0o7777
+
+		switch {
+		case a.typ == "l":
+			want = 0o777
+		case c.Op == "Create":
+			want = uint32(0o666 &^ c.Umask)
+		}
+
+		if w := fmt.Sprintf("%04o", want); a.perm != w {
+			set["new:perm-not-formula:"+strings.ReplaceAll(strings.ReplaceAll(permDiff(w, a.perm), "-only-kernel", "-missing"), "-only-avfs", "-extra")] = true
+		}
+	}
+
+	out := make([]string, 0, len(set))
+	for k := range set {
+		out = append(out, k)
+	}
+
+	sort.Strings(out)
+
+	return out
 }
 
 func valueDiff(op, k, v string) string {
@@ -1041,9 +1131,12 @@ func (w *worker) runTask(blocks []*block, t task) (r reply) {
 			r.Evals++
 
 			if o.skipped {
-				if o.skipOth {
+				switch {
+				case o.skipArt:
+					r.ArtefactSkipped++
+				case o.skipOth:
 					r.PolicySkippedOther++
-				} else {
+				default:
 					r.PolicySkipped++
 				}
 
@@ -1054,6 +1147,14 @@ func (w *worker) runTask(blocks []*block, t task) (r reply) {
 				r.Allowed++
 			} else {
 				r.Refused++
+			}
+
+			if o.kernelOffFormula {
+				r.KernelOffFormula++
+			}
+
+			if o.maskedChmod {
+				r.MaskedChmodSetgid++
 			}
 
 			r.Outcomes[c.Op+"|"+actorClass(b.Fam, nodes, users[b.Actor])+"|"+o.rk.Kind]++
